@@ -478,6 +478,7 @@ type c17Args struct {
 	Pool     int       `json:"pool"`
 	Depth    int       `json:"depth"`
 	Unmerged bool      `json:"unmerged"`
+	First    int       `json:"first"` // unmerged search: only histories that start with the First-th root operation (one job per root operation)
 	Level    bool      `json:"level"` // expand the given histories by one operation each (one chunk of a BFS level)
 	Hists    [][]c17Op `json:"hists,omitempty"`
 }
@@ -493,7 +494,10 @@ type c17LevelOut struct {
 // c17Unmerged: every history to depth 5 over a reduced alphabet (3 DSNs, <=2 handles, query/close), WITHOUT merging
 // states: whatever hidden state an implementation keeps outside the driver object (package-level registries ...) cannot
 // hide behind an equal state key here.
-func c17Unmerged(ctx *rt.Ctx, pool int) []*rt.Violation {
+// c17UnmergedRoots: operations enabled in the initial state over the unmerged alphabet.
+const c17UnmergedRoots = 10
+
+func c17Unmerged(ctx *rt.Ctx, pool int, first int) []*rt.Violation {
 	var alpha []c17Op
 	for h := 0; h < 2; h++ {
 		for _, d := range []int{0, 1, 2} {
@@ -531,15 +535,27 @@ func c17Unmerged(ctx *rt.Ctx, pool int) []*rt.Violation {
 		if len(c.Ops) == 6 || (len(c.Ops) == 5 && !hasSwap) {
 			return true
 		}
+		nth := 0
 		for _, op := range alpha {
 			if !c17Enabled(c, op) {
 				continue
+			}
+			nth++
+			if len(c.Ops) == 0 && nth-1 != first {
+				continue // another job's subtree
 			}
 			if !rec(c17Case{Pool: pool, Ops: append(append([]c17Op{}, c.Ops...), op)}) {
 				return false
 			}
 		}
-		return !ctx.Expired()
+		if len(c.Ops) == 0 && nth != c17UnmergedRoots {
+			rt.Harnessf("unmerged search: %d root operations, %d jobs", nth, c17UnmergedRoots)
+		}
+		if ctx.Expired() {
+			ctx.Cov.Cap(fmt.Sprintf("unmerged search pool=%d root operation %d: deadline", pool, first))
+			return false
+		}
+		return true
 	}
 	rec(c17Case{Pool: pool})
 	return vs
@@ -678,7 +694,7 @@ func c17SeqBFS(ctx *rt.Ctx, pool, maxDepth int, k0 string) []*rt.Violation {
 
 func c17SeqWorker(ctx *rt.Ctx, job *rt.Job, a c17Args) []*rt.Violation {
 	if a.Unmerged {
-		return c17Unmerged(ctx, a.Pool)
+		return c17Unmerged(ctx, a.Pool, a.First)
 	}
 	if a.Level {
 		return c17LevelWorker(ctx, a)
@@ -952,8 +968,11 @@ func c17Run(ctx *rt.Ctx) []*rt.Violation {
 	}
 	var seq []rt.Job
 	for _, pool := range []int{0, 1} {
-		b, _ := json.Marshal(c17Args{Pool: pool, Unmerged: true})
-		seq = append(seq, rt.Job{Name: "seq", NShards: 1, Args: b})
+		// one job per root operation: 3 x open, 5 x open+query (handle 0), replace-file, relink
+		for first := 0; first < c17UnmergedRoots; first++ {
+			b, _ := json.Marshal(c17Args{Pool: pool, Unmerged: true, First: first})
+			seq = append(seq, rt.Job{Name: "seq", Shard: first, NShards: c17UnmergedRoots, Args: b})
+		}
 	}
 	type cc struct {
 		p      c17Params
